@@ -5,7 +5,7 @@ use crate::ops_elem::FromLabel;
 fn ou(a: &Arg) -> Option<Option<usize>> { match a { Arg::N => Some(None), Arg::Z(z) => Some(Some(*z as usize)), _ => None } }
 fn oi(a: &Arg) -> Option<Option<isize>> { match a { Arg::N => Some(None), Arg::Z(z) => Some(Some(*z as isize)), _ => None } }
 
-fn go<N: FromLabel + Numeric>(op: &str, args: &[Arg]) -> Option<String> {
+fn go<N: FromLabel + Numeric>(op: &str, args: &[Arg]) -> Option<String> where <N as std::str::FromStr>::Err: std::fmt::Debug {
     let mkn = |sh: &Vec<usize>, es: &Vec<i128>| Array::new(es.iter().map(|&x| N::conv(false, x)).collect(), sh.clone()).ok();
     Some(match (op, args) {
         ("full", [Arg::L(sh), Arg::Z(v)]) => res_arr(&Array::<N>::full(usizes(sh), N::conv(false, *v))),
@@ -22,6 +22,25 @@ fn go<N: FromLabel + Numeric>(op: &str, args: &[Arg]) -> Option<String> {
         ("diag", [Arg::A(s, e), k]) => res_arr(&mkn(s, e)?.diag(oi(k)?)),
         ("diagflat", [Arg::A(s, e), k]) => res_arr(&mkn(s, e)?.diagflat(oi(k)?)),
         ("vander", [Arg::A(s, e), n, Arg::Z(inc)]) => res_arr(&mkn(s, e)?.vander(ou(n)?, Some(*inc == 1))),
+        // ---- the constructor macros (same case syntax as the functions, prefix m_) ----
+        ("m_zeros", [Arg::L(sh)]) => { let d = usizes(sh); res_arr(&match d.len() {
+            1 => array_zeros!(N, d[0]), 2 => array_zeros!(N, d[0], d[1]), 3 => array_zeros!(N, d[0], d[1], d[2]),
+            4 => array_zeros!(N, d[0], d[1], d[2], d[3]), _ => return None }) }
+        ("m_ones", [Arg::L(sh)]) => { let d = usizes(sh); res_arr(&match d.len() {
+            1 => array_ones!(N, d[0]), 2 => array_ones!(N, d[0], d[1]), 3 => array_ones!(N, d[0], d[1], d[2]),
+            4 => array_ones!(N, d[0], d[1], d[2], d[3]), _ => return None }) }
+        ("m_full", [Arg::L(sh), Arg::Z(v)]) => { let d = usizes(sh); res_arr(&array_full!(N, d, N::conv(false, *v))) }
+        ("m_eye", [Arg::Z(n), Arg::N, Arg::N]) => res_arr(&array_eye!(N, *n as usize)),
+        ("m_eye", [Arg::Z(n), Arg::Z(m), Arg::N]) => res_arr(&array_eye!(N, *n as usize, *m as usize)),
+        ("m_eye", [Arg::Z(n), Arg::Z(m), Arg::Z(k)]) => res_arr(&array_eye!(N, *n as usize, *m as usize, *k as usize)),
+        ("m_identity", [Arg::Z(n)]) => res_arr(&array_identity!(N, *n as usize)),
+        ("m_arange", [Arg::Z(a), Arg::Z(b), Arg::N]) => res_arr(&array_arange!(N, N::conv(false, *a), N::conv(false, *b))),
+        ("m_arange", [Arg::Z(a), Arg::Z(b), Arg::Z(st)]) => res_arr(&array_arange!(N, N::conv(false, *a), N::conv(false, *b), N::conv(false, *st))),
+        ("m_single", [Arg::Z(v)]) => res_arr(&array_single!(N, N::conv(false, *v))),
+        ("m_flat", [Arg::L(es)]) => { let e: Vec<N> = es.iter().map(|&x| N::conv(false, x)).collect(); res_arr(&match e.len() {
+            1 => array_flat!(N, e[0]), 2 => array_flat!(N, e[0], e[1]), 3 => array_flat!(N, e[0], e[1], e[2]),
+            4 => array_flat!(N, e[0], e[1], e[2], e[3]), 5 => array_flat!(N, e[0], e[1], e[2], e[3], e[4]),
+            6 => array_flat!(N, e[0], e[1], e[2], e[3], e[4], e[5]), _ => return None }) }
         ("arange", [Arg::Z(a), Arg::Z(b), st]) => res_arr(&Array::<N>::arange(N::conv(false, *a), N::conv(false, *b), match st { Arg::N => None, Arg::Z(s) => Some(N::conv(false, *s)), _ => return None })),
         _ => return None,
     })
@@ -32,7 +51,8 @@ fn bits(v: &[f64]) -> String { format!("f({})", v.iter().map(|x| format!("{:016x
 pub fn dispatch(op: &str, ty: &str, args: &[Arg]) -> Option<String> {
     let r = match op {
         "full" | "zeros" | "ones" | "full_like" | "zeros_like" | "ones_like" | "eye" | "identity" | "tri" | "tril" | "triu"
-        | "diag" | "diagflat" | "vander" | "arange" => match ty {
+        | "diag" | "diagflat" | "vander" | "arange" | "m_zeros" | "m_ones" | "m_full" | "m_eye" | "m_identity" | "m_arange"
+        | "m_single" | "m_flat" => match ty {
             "i32" => go::<i32>(op, args), "i64" => go::<i64>(op, args), "u8" => go::<u8>(op, args), "f64" => go::<f64>(op, args), "f32" => go::<f32>(op, args), _ => None },
         // float sequences: raw bit patterns of the f64 results; start/stop are given as exact dyadic rationals n/d
         "linspace" | "logspace" | "geomspace" => {
@@ -46,8 +66,11 @@ pub fn dispatch(op: &str, ty: &str, args: &[Arg]) -> Option<String> {
             };
             Some(match r { Ok(a) => match wf_violation(&a) { Some(v) => v, None => bits(&a.get_elements().unwrap()) }, Err(e) => err_str(&e) })
         }
-        "rand" => match args { [Arg::L(sh)] => {
-            let r = Array::<f64>::rand(usizes(sh));
+        "rand" | "m_rand" => match args { [Arg::L(sh)] => {
+            let d = usizes(sh);
+            let r = if op == "rand" { Array::<f64>::rand(d) } else { match d.len() {
+                1 => array_rand!(f64, d[0]), 2 => array_rand!(f64, d[0], d[1]), 3 => array_rand!(f64, d[0], d[1], d[2]),
+                4 => array_rand!(f64, d[0], d[1], d[2], d[3]), _ => return Some("bad:input".into()) } };
             Some(match r { Ok(a) => match wf_violation(&a) { Some(v) => v, None => format!("rand({}:{})", shape_str(&a.get_shape().unwrap()),
                 a.get_elements().unwrap().iter().all(|x| (0.0..=1.0).contains(x)) as i32) }, Err(e) => err_str(&e) })
         } _ => None },
